@@ -157,7 +157,7 @@ Section WorldRun.
     | RS _ =>
         let total := N.of_nat (List.length padded_bits) in
         if (negb (rW =? 0)) && c_rstrict C && (total <? p) then Err
-        else Ok (RS {| sr_rest := skipn (N.to_nat p) padded_bits; sr_pos := p |})
+        else Ok (RS {| sr_rest := skipn (N.to_nat p) padded_bits; sr_pos := p; sr_peeked := 0 |})
     | RB x => omap RB (br_set_bit_pos E rW p x)
     | RU x => Ok (RU {| ur_src := ur_src x; ur_index := p |})
     end.
